@@ -299,11 +299,16 @@ func TestVerifC12Resolution(t *testing.T) {
 	rapid.Check(t, func(rt *rapid.T) {
 		sc := ccGenScenario(rt, ccGenOpts{})
 
-		confs := []int{ccL, ccL, ccR, ccR, ccBreach, ccCoop}
+		confs := []int{ccL, ccL, ccL, ccR, ccR, ccR, ccBreach, ccBreach, ccCoop}
 		if sc.HasPending {
 			confs = append(confs, ccP, ccP)
 		}
 		conf := rapid.SampledFrom(confs).Draw(rt, "conf")
+		if conf == ccCoop {
+			// A cooperative close is only negotiated once no HTLC
+			// is left on any commitment.
+			sc.HTLCs = nil
+		}
 		// pre: what happened before the confirmation: 0 nothing (the
 		// close event arrives in StateDefault), 1 a block made us
 		// broadcast, 2 the user made us broadcast.
@@ -485,8 +490,8 @@ func TestVerifC12Resolution(t *testing.T) {
 			}
 
 		default:
-			c12CheckCommit(sc, conf, broadcast, preHeight, obs,
-				byPoint, other, state, st, fail, &labels)
+			c12CheckCommit(sc, conf, broadcast, pre == 2, preHeight,
+				obs, byPoint, other, state, st, fail, &labels)
 		}
 
 		var smp any
@@ -518,7 +523,7 @@ func c12Describe(rs []ContractResolver) string {
 
 // c12CheckCommit is the per-HTLC reference for a confirmed valid commitment
 // C (ours, the peer's current, the peer's pending).
-func c12CheckCommit(sc *ccScenario, conf int, broadcast bool,
+func c12CheckCommit(sc *ccScenario, conf int, broadcast, userTrig bool,
 	preHeight uint32, obs *c12Obs, byPoint map[wire.OutPoint][]ContractResolver, other map[string]int,
 	state ArbitratorState, st *vstats.Collector,
 	fail func(string, ...any), labels *[]string) {
@@ -623,7 +628,8 @@ func c12CheckCommit(sc *ccScenario, conf int, broadcast bool,
 		case !x.Incoming && x.On[conf] && x.Dust[conf]:
 			*labels = append(*labels, "offered_dust")
 			c12ExactlyOnce(sc, x, "dust on the confirmed commitment",
-				preF, postF, broadcast, preHeight, st, fail, labels)
+				preF, postF, broadcast, userTrig, preHeight, st, fail,
+				labels)
 
 		// Offered, not on the confirmed commitment but on another:
 		// failed back exactly once unless the preimage is known.
@@ -663,7 +669,8 @@ func c12CheckCommit(sc *ccScenario, conf int, broadcast bool,
 				break
 			}
 			c12ExactlyOnce(sc, x, "only on a non-confirmed commitment",
-				preF, postF, broadcast, preHeight, st, fail, labels)
+				preF, postF, broadcast, userTrig, preHeight, st, fail,
+				labels)
 
 		// Received dust: closed out (final outcome), no resolver.
 		case x.Incoming && x.On[conf] && x.Dust[conf]:
@@ -691,12 +698,20 @@ func c12CheckCommit(sc *ccScenario, conf int, broadcast bool,
 
 // c12FailedAtBroadcast reports whether lnd's own rule fails x back at the
 // moment we broadcast our commitment (StateDefault step on a chain or user
-// trigger, our commitment's view): dust on our commitment, or dangling
+// trigger, our commitment's view): dust on our commitment (and that
+// commitment's HTLCs were acted upon at all), or dangling
 // (not on ours), unambiguously dust on the peer's side, inside the broadcast
 // window and preimage unknown.
-func c12FailedAtBroadcast(sc *ccScenario, x *ccHTLC, preHeight uint32) bool {
+func c12FailedAtBroadcast(sc *ccScenario, x *ccHTLC, userTrig bool,
+	preHeight uint32) bool {
+
 	if x.On[ccL] {
-		return x.Dust[ccL]
+		// On a chain trigger the HTLCs of our commitment only get
+		// actions if one of them forces us on chain (if only a
+		// dangling HTLC did, the local set yields no actions).
+		must, _, _ := c12Band(sc, preHeight)
+
+		return x.Dust[ccL] && (userTrig || must)
 	}
 	dustEverywhere := true
 	for _, s := range []int{ccR, ccP} {
@@ -713,7 +728,7 @@ func c12FailedAtBroadcast(sc *ccScenario, x *ccHTLC, preHeight uint32) bool {
 // c12ExactlyOnce checks the exactly-once fail-back of an offered HTLC that
 // has no output on the confirmed commitment.
 func c12ExactlyOnce(sc *ccScenario, x *ccHTLC, what string, preF, postF int,
-	broadcast bool, preHeight uint32, st *vstats.Collector,
+	broadcast, userTrig bool, preHeight uint32, st *vstats.Collector,
 	fail func(string, ...any), labels *[]string) {
 
 	total := preF + postF
@@ -721,7 +736,7 @@ func c12ExactlyOnce(sc *ccScenario, x *ccHTLC, what string, preF, postF int,
 		return
 	}
 	if total == 0 && broadcast &&
-		!c12FailedAtBroadcast(sc, x, preHeight) {
+		!c12FailedAtBroadcast(sc, x, userTrig, preHeight) {
 
 		// Known finding: after we broadcast our own commitment
 		// (chain or user trigger) the dust fail-backs of the
